@@ -159,11 +159,13 @@ func eastAsianLineBreaksCSS3DraftSoftLineBreak(thisLastRune rune, siblingFirstRu
 	//   Otherwise, if either the character before or after the segment break belongs to
 	//   the space-discarding character set and it is a Unicode Punctuation (P*) or U+3000,
 	//   then the segment break is removed.
+	//   ASCII punctuation is not East Asian punctuation: a segment break next to it
+	//   is kept unless the other side says otherwise ("foo.\nbar" must not become "foo.bar").
 	if util.IsSpaceDiscardingUnicodeRune(thisLastRune) ||
-		unicode.IsPunct(thisLastRune) ||
+		(thisLastRune > unicode.MaxASCII && unicode.IsPunct(thisLastRune)) ||
 		thisLastRune == '\u3000' ||
 		util.IsSpaceDiscardingUnicodeRune(siblingFirstRune) ||
-		unicode.IsPunct(siblingFirstRune) ||
+		(siblingFirstRune > unicode.MaxASCII && unicode.IsPunct(siblingFirstRune)) ||
 		siblingFirstRune == '\u3000' {
 		return false
 	}
